@@ -63,7 +63,7 @@ def class_of(v: V) -> Optional[str]:
     if isinstance(v, K):
         if v.v is None:
             return "builtin:NoneType"
-        return {bool: "builtin:bool", int: "builtin:int", str: "builtin:str"}.get(type(v.v))
+        return {bool: "builtin:bool", int: "builtin:int", str: "builtin:str", float: "builtin:float", bytes: "builtin:bytes"}.get(type(v.v))
     if isinstance(v, R) and v.kind == "val":
         return v.fields["cls"].name
     return None
